@@ -25,7 +25,7 @@ import (
 	"verifharness/vlib"
 )
 
-func readReplay(path string) (*scenario, *e2eCase) {
+func readReplay(path string) (*scenario, *e2eCase, *emuLinkScenario) {
 	b, err := os.ReadFile(path)
 	if err != nil {
 		fmt.Println("cannot read replay file:", err)
@@ -33,15 +33,16 @@ func readReplay(path string) (*scenario, *e2eCase) {
 	}
 	var f struct {
 		Witness struct {
-			Scenario *scenario `json:"scenario"`
-			E2E      *e2eCase  `json:"e2e_case"`
+			Scenario *scenario        `json:"scenario"`
+			E2E      *e2eCase         `json:"e2e_case"`
+			EmuLink  *emuLinkScenario `json:"emu_link_scenario"`
 		} `json:"witness"`
 	}
 	if err := json.Unmarshal(b, &f); err != nil {
 		fmt.Println("cannot parse replay file:", err)
 		os.Exit(2)
 	}
-	return f.Witness.Scenario, f.Witness.E2E
+	return f.Witness.Scenario, f.Witness.E2E, f.Witness.EmuLink
 }
 
 func main() {
@@ -51,9 +52,10 @@ func main() {
 	}
 	var replaySc *scenario
 	var replayE2E *e2eCase
+	var replayEL *emuLinkScenario
 	for i, a := range os.Args {
 		if a == "--replay" && i+1 < len(os.Args) {
-			replaySc, replayE2E = readReplay(os.Args[i+1]) // before vlib.Start deletes it
+			replaySc, replayE2E, replayEL = readReplay(os.Args[i+1]) // before vlib.Start deletes it
 		}
 	}
 	if os.Getenv("C14_DUMP") != "" {
@@ -65,6 +67,7 @@ func main() {
 
 	var scs []scenario
 	var e2es []e2eCase
+	var els []emuLinkScenario
 	if spec := os.Getenv("C14_SPEC"); spec != "" { // development aid: one kernel in a quiet environment
 		var k kernelSpec
 		if err := json.Unmarshal([]byte(spec), &k); err != nil {
@@ -79,7 +82,19 @@ func main() {
 		scs = []scenario{*replaySc}
 	case replayE2E != nil:
 		e2es = []e2eCase{*replayE2E}
+	case replayEL != nil:
+		els = []emuLinkScenario{*replayEL}
+	case os.Getenv("C14_ONLY_EMULINK") != "": // development aid
+		els = canonicalEmuLink()
 	default:
+		// layer: emulation CU whose completion messages meet a stalling connection / receiver
+		els = canonicalEmuLink()
+		if os.Getenv("C14_ONLY_CANONICAL") == "" {
+			eb := c.Rand("emu-link")
+			for i, n := 0, c.N(60, 1500); i < n; i++ {
+				els = append(els, genEmuLink(eb.ForkN("el", i), i))
+			}
+		}
 		scs = canonical()
 		if os.Getenv("C14_ONLY_CANONICAL") == "" {
 			n := c.N(150, 5000)
@@ -98,7 +113,13 @@ func main() {
 		runE2E(c, e2es)
 		close(done)
 	}()
-	vlib.Parallel(len(scs), 0, func(i int) { results[i] = runCase(c, scs[i]) })
+	vlib.Parallel(len(scs)+len(els), 0, func(i int) {
+		if i < len(scs) {
+			results[i] = runCase(c, scs[i])
+		} else {
+			runEmuLink(c, els[i-len(scs)])
+		}
+	})
 	<-done
 	var maxLate, maxEvents int64
 	for _, r := range results {
@@ -108,7 +129,7 @@ func main() {
 	c.Set("max_barrier_lateness_cycles", maxLate)
 	c.Set("max_engine_events_in_one_run", maxEvents)
 	fmt.Printf("[C14] max barrier lateness %d cycles; largest run %d engine events (bound %d)\n", maxLate, maxEvents, eventLimit(scenario{}))
-	replay := replaySc != nil || replayE2E != nil
+	replay := replaySc != nil || replayE2E != nil || replayEL != nil
 	opts := vlib.FinishOpts{
 		Rule: "case = (generated GCN3 program, memory/dispatcher environment) on one real timing compute unit, plus the same programs through the driver " +
 			"on the r9nano timing and the emulation platform; generated from VERIF_SEED plus a fixed canonical battery. " +
@@ -121,6 +142,7 @@ func main() {
 			"lgkmcnt is judged against scalar-memory and LDS instructions only (FLAT instructions are not counted towards it)",
 			"resource offsets are computed by a re-implementation of the command processor's first-fit pool (the pool is an internal package)",
 			"expected values come from a host model of the generated programs (barrier phase = all live wavefronts write, then all read); emulation is compared against the same model",
+			"emu-link layer: 'last wavefront ended' = the emulation CU's instruction hook has reported s_endpgm for every wavefront of the group; 'results in memory' = the group's slice of B in the shared mem.Storage equals the host model at the moment the WGCompletionMsg is pushed into the CU's port; stall windows end within 300 cycles of the Send they make fail (the emulation CU retries every cycle)",
 		},
 	}
 	if replay { // a replay is judged by its violations alone
@@ -140,8 +162,16 @@ func main() {
 			"early_exit_cases_completed":            3,
 			"output_words_compared":                 10000,
 			"e2e_runs_compared":                     4,
+
+			"emu_link_scenarios":                                               30,
+			"emu_link_groups_mapped":                                           250,
+			"emu_link_completion_msgs_with_2_or_more_ids":                      40,
+			"emu_link_completion_batches_with_2_or_more_ids_whose_send_failed": 10,
+			"emu_link_stall_windows_that_held_a_completion":                    25,
+			"emu_link_result_words_checked_at_completion":                      20000,
+			"emu_link_barriers_executed":                                       500,
 		}
-		if os.Getenv("C14_NO_E2E") != "" || os.Getenv("C14_ONLY_CANONICAL") != "" {
+		if os.Getenv("C14_NO_E2E") != "" || os.Getenv("C14_ONLY_CANONICAL") != "" || os.Getenv("C14_ONLY_EMULINK") != "" {
 			opts.MinCounters = nil
 			opts.MinNontrivial = 2
 		}
